@@ -329,8 +329,42 @@ func StagedViews() {
 	}
 }
 
+// ReadersWriterDrain: the writer removes as many tips in a row as the block cache holds (the cache is drained and refilled
+// from the database) while a reader asks for the tip: it must always get some complete committed tip, never nil.
+func ReadersWriterDrain() {
+	fx := newChain(4, 2, 0) // heights 0..4 on disk, the two newest cached
+	defer fx.d.Close()
+	valid := map[string]bool{"h4": true, "h3": true, "h2": true}
+	var g vsched.Group
+	g.Go("writer", func() {
+		for i := 0; i < 2; i++ {
+			if err := fx.chain.RemoveBlock(fx.d.NewBatch(), false); err != nil {
+				vsched.Fail("RemoveBlock: " + err.Error())
+			}
+		}
+	})
+	g.Go("reader-tip", func() {
+		for i := 0; i < 2; i++ {
+			b := fx.chain.LastBlock()
+			if b == nil {
+				vsched.Fail("LastBlock returned nil while the writer removed blocks")
+				return
+			}
+			if !valid[idOf(b)] {
+				vsched.Fail("LastBlock returned " + idOf(b) + " which never was a committed tip")
+			}
+			vsched.Note("tip=" + idOf(b))
+		}
+	})
+	g.Wait()
+	if b := fx.chain.LastBlock(); b == nil || idOf(b) != "h2" {
+		vsched.Fail("final tip is not the block at height 2")
+	}
+}
+
 var All = []Scenario{
 	{"readers-writer", ReadersWriter},
+	{"readers-writer-draining-the-cache", ReadersWriterDrain},
 	{"bulk-headers-by-ids", BulkHeadersByIDs},
 	{"bulk-headers-by-heights", BulkHeadersByHeights},
 	{"bulk-transactions", BulkTransactions},
